@@ -38,6 +38,9 @@ func pickCfg(r *fw.Rng) kinds.Cfg {
 	if c.Format == ref.V1 && r.Chance(1, 3) {
 		c.Codec = "registered"
 	}
+	if fw.Mix(r.U64(), 5)%6 == 0 { // an explicit comparator whose results are not just -1/0/1
+		c.Cmp = "scaled"
+	}
 	return c
 }
 
